@@ -123,6 +123,7 @@ type vConn struct {
 	one    bool
 	cutErr bool
 	endWithData bool // report the end of the stream together with the last bytes
+	lines       bool // deliver one line (up to and including LF) per Read
 }
 
 func (c *vConn) Read(p []byte) (int, error) {
@@ -138,6 +139,11 @@ func (c *vConn) Read(p []byte) (int, error) {
 	}
 	if c.one && n > 1 {
 		n = 1
+	}
+	if c.lines {
+		if i := bytes.IndexByte(c.in[c.pos:c.pos+n], '\n'); i >= 0 {
+			n = i + 1
+		}
 	}
 	copy(p, c.in[c.pos:c.pos+n])
 	c.pos += n
@@ -265,6 +271,7 @@ type vServer struct {
 	chunks  []int // sizes of successive reads (0 = rest)
 	reads   int
 	keySeen []byte
+	lines   bool // deliver one line (up to and including LF) per Read
 }
 
 func (s *vServer) Write(p []byte) (int, error) { s.out = append(s.out, p...); return len(p), nil }
@@ -288,6 +295,11 @@ func (s *vServer) Read(p []byte) (int, error) {
 	s.reads++
 	if n > len(p) {
 		n = len(p)
+	}
+	if s.lines {
+		if i := bytes.IndexByte(s.in[s.pos:s.pos+n], '\n'); i >= 0 {
+			n = i + 1
+		}
 	}
 	copy(p, s.in[s.pos:s.pos+n])
 	s.pos += n
